@@ -645,6 +645,19 @@ func (x *Exec) evalCall(n *SCall, env *Env) Val {
 		x.fail("unknown global %s", s.V)
 	case "real":
 		return Val{T: fmt.Sprintf("(to_real %s)", arg(0).T), Sort: "Real"}
+	case "isClosure": // isClosure(f, "pkg.(*T).M$1"): f is a closure of that function literal
+		f := arg(0)
+		nm, ok := n.Args[1].(*SStr)
+		if !ok {
+			x.fail("isClosure: second argument must be a string literal")
+		}
+		target := e.prog.funcs[nm.V]
+		if target == nil {
+			x.fail("isClosure: no function %s in the program", nm.V)
+		}
+		fid := x.val(target)
+		e.decl("(declare-fun closureFn (Int) Int)")
+		return Val{T: fmt.Sprintf("(= (closureFn %s) %s)", f.T, fid.T), Sort: "Bool"}
 	case "boundMethod": // boundMethod(f, "pkg.(*T).M", recv): f is the method value recv.M
 		f, recv := arg(0), arg(2)
 		nm, ok := n.Args[1].(*SStr)
@@ -655,6 +668,7 @@ func (x *Exec) evalCall(n *SCall, env *Env) Val {
 		fid := Val{T: "fn!" + sanitize(nm.V+"$bound"), Sort: "Int"}
 		e.decl(fmt.Sprintf("(declare-const %s Int)", fid.T))
 		e.decl(fmt.Sprintf("(assert (> %s 0))", fid.T))
+		e.decl(fmt.Sprintf("(assert (= (fnIdent %s) %d))", fid.T, fnOrdinal(nm.V+"$bound")))
 		e.decl("(declare-fun closureFn (Int) Int)")
 		bf := "closureBind0!" + sanitize(recv.Sort)
 		e.decl(fmt.Sprintf("(declare-fun %s (Int) %s)", bf, recv.Sort))
